@@ -823,3 +823,6 @@ class AndMaybeMatcher(AdditiveBiMatcher):
 
     def value_as(self, astype):
         return self.a.value_as(astype)
+
+    def spans(self):
+        return self.a.spans()
